@@ -634,7 +634,6 @@ func (h *w1Harness) accessReq(a *w1Actor, id *uuid.UUID, publish bool) defs.Path
 }
 
 func (h *w1Harness) runPub(idx int, a *w1Actor) {
-	name := fmt.Sprintf("pub%d", idx)
 	time.Sleep(time.Duration(a.StartMs) * time.Millisecond)
 	serial := int64(0)
 	for si, op := range a.Ops {
@@ -645,6 +644,7 @@ func (h *w1Harness) runPub(idx int, a *w1Actor) {
 			time.Sleep(time.Duration(op.Ms) * time.Millisecond)
 			continue
 		}
+		name := fmt.Sprintf("pub%d.%d", idx, si) // one name per session
 		p := &w1Pub{h: h, idx: idx, a: a, name: name, id: w1UUID(1, idx*8+si), closed: simrt.NewSignal()}
 		simrt.Touch(p)
 		var confToCompare *conf.Path
